@@ -1,36 +1,81 @@
-"""C05 - deferred entity deletion is applied at the next process(), safely."""
+"""C05 - deferred entity deletion is applied at the next process(), safely.
+
+Two streams of cases: the atomic stream of harness/worldl_common.py (callbacks
+that only log; also the format of the corpus) and the re-entrant stream of
+harness/worldlr_common.py (on_add / on_remove run scripts of World
+operations).  A case of the second stream carries the key 'scr'."""
 from harness import worldl_common as W
+from harness import worldlr_common as R
 
 ID = 'C05'
-COQ_MODULE = 'Desper.World.LC05'
-CASE_TYPE = 'C05_case'
-VERDICT = 'C05_verdict'
+COQ_MODULE = 'Desper.World.LR05'
+CASE_TYPE = 'C05x_case'
+VERDICT = 'C05x_verdict'
 PROPS_FILE = 'theories/Props/C05.v'
 THEOREM = 'C05_deferred_delete'
-RULE = ('random World histories (1-25 ops) over 2-5 unrelated component classes of 8 kinds '
-        '(no __events__ / every non-empty subset of on_add, on_remove, probe), 3-10 instances, '
-        'entity ids from a pool of 6 (ints overlapping the automatic ids, a string, a tuple) '
-        'plus never-used ids; ops create (auto/explicit) / add_component (45 % replacements) / '
-        'remove_component / delete_entity (30 % immediate, 8 % error path on ids that may '
-        'never have existed) / process / clear / dispatch_enabled toggles / probe dispatch / '
-        'add_processor; after a deferred delete the following ops aim at the same entity '
-        'with probability 0.6; one logging processor; after every op 6 sampled queries '
-        '(entity_exists, entities, get_components, is_handler), full snapshot after the last; '
-        'non-trivial = at least 3 state-changing ops and one callback')
+RULE = ('stream A (half): random World histories (1-25 ops) over 2-5 unrelated component classes '
+        'of 8 kinds (no __events__ / every non-empty subset of on_add, on_remove, probe), 3-10 '
+        'instances, entity ids from a pool of 6 (ints overlapping the automatic ids, a string, a '
+        'tuple) plus never-used ids; ops create / add_component (45 % replacements) / '
+        'remove_component / delete_entity (30 % immediate, 8 % error path) / process / clear / '
+        'dispatch_enabled toggles / probe / add_processor; after a deferred delete the next ops '
+        'aim at the same entity with probability 0.6. '
+        'Stream B (half): re-entrant callbacks - every class declares on_remove (40 % also '
+        'on_add) and its callbacks run scripts of 0-2 World operations (delete_entity immediate '
+        '40 % / deferred, remove_component, add_component, create_entity) on a pool of 4 entities, '
+        'nested callbacks run their scripts down to depth 3 and for the first 40 callbacks of an '
+        'operation; 2-14 top-level ops incl. process (16 %) and toggles; 40 % of stream B is '
+        'focused: 2-4 entities created, most of them marked, on_remove scripts that delete / '
+        'strip / re-mark the other marked entities, then process (30 % of those with the frame '
+        'run while disabled and the notifications released afterwards). The log records every '
+        'scripted action before it is performed, its outcome, callback entry/exit and processor '
+        'calls. One logging processor; after every op 6 sampled queries, full snapshot after the '
+        'last. Non-trivial = (A) >= 3 state-changing ops and one callback, (B) >= 1 scripted action')
 TRUSTED = [
-    'Coq 8.16.1 kernel + vm_compute (evaluation of C05_verdict on the observed traces)',
-    'hand-written model World/LModel.v tied to /repo by this correspondence run '
-    '(sampled, not exhaustive; exact component types only, callbacks that only log)',
-    'harness doubles (logging components and processor), object <-> number bijection',
+    'Coq 8.16.1 kernel + vm_compute (evaluation of C05x_verdict on the observed traces)',
+    'hand-written models World/LModel.v (atomic operations) and World/LRModel.v (stack machine '
+    'for re-entrant callbacks) tied to /repo by this correspondence run (sampled, not '
+    'exhaustive; exact component types only)',
+    'harness doubles (logging / scripted components, processor), object <-> number bijection',
     'CPython dict / set semantics',
 ]
-ASSUMPTIONS = ['component callbacks and processors do not call back into the world '
-               '(re-entrancy is covered by C03/C04)',
-               'exact component types (subtype walks are C06)']
+ASSUMPTIONS = ['exact component types (subtype walks are C06)',
+               'stream B: no clear() / probe; every class declares on_remove (so that the set '
+               'order in which process() drains the marks is visible in the log); scripted '
+               'callbacks catch the exception of a scripted action; scripts stop running below '
+               'callback depth 3 / after 40 callbacks per operation (a script that re-creates and '
+               're-marks its own entity would otherwise keep process() draining for ever)']
+CASE_TIMEOUT = 8
 
-gen = W.gen
-run = W.run
-encode = W.encode
-nontrivial = W.nontrivial
-stats = W.stats
-mutate = W.mutate
+
+def gen(rng, tier):
+    n = {'quick': 350, 'thorough': 3500, 'search': 150}[tier]
+    return [W.gen_case(rng) for _ in range(n)] + R.gen_r(rng, n)
+
+
+run = R.run
+encode = R.encode
+
+
+def nontrivial(case, trace):
+    return R.nontrivial_r(case, trace) if 'scr' in case else W.nontrivial(case, trace)
+
+
+def stats(cases, traces):
+    a = [(c, t) for c, t in zip(cases, traces) if 'scr' not in c]
+    bb = [(c, t) for c, t in zip(cases, traces) if 'scr' in c]
+    return dict(atomic=W.stats([c for c, _ in a], [t for _, t in a]),
+                reentrant=R.stats_r([c for c, _ in bb], [t for _, t in bb]))
+
+
+def mutate(case, rng):
+    if 'scr' in case:
+        for _ in range(100):
+            c = dict(case)
+            c['ops'] = list(case['ops'])
+            k = rng.randrange(len(c['ops']) + 1)
+            c['ops'].insert(k, rng.choice([['process'], ['delete', rng.choice(R.RPOOL), False],
+                                           ['delete', rng.choice(R.RPOOL), True]]))
+            yield c
+    else:
+        yield from W.mutate(case, rng)
